@@ -25,8 +25,10 @@ def vrt(tu, scenarios, bound=2, unbounded=False, race_oracle='user', workers=16,
                 ignore=ignore or [], max_viol=max_viol, spurious=spurious, cache_bits=cache_bits)
 
 
-def seq(tu, args=None, ignore=None):
-    return dict(kind='seq', tu=tu, args=args or [], ignore=ignore or [])
+def seq(tu, args=None, ignore=None, tier=None):
+    # tier: depth set the sequential harness uses when it differs from the tier of the check (quick checks of cheap properties
+    # run the thorough depth)
+    return dict(kind='seq', tu=tu, args=args or [], ignore=ignore or [], tier=tier)
 
 
 def jobs(pid, tier):
@@ -122,21 +124,21 @@ def jobs(pid, tier):
                 vrt('C11', [rf'pool_w[12]_{LOST}_(stop|dtor|selfstop)', rf'pool_w1_{OKK}-{LOST}_stop'], bound=2, workers=4, max_viol=10000000)]
     if pid == 'C04':
         if q:
-            return [seq('C04'), vrt('C04', [r'async_.*'], bound=2, workers=2)]
+            return [seq('C04', tier='thorough'), vrt('C04', [r'async_.*'], unbounded=True, workers=4)]
         return [seq('C04'), vrt('C04', [r'async_.*'], unbounded=True, workers=4)]
     if pid == 'C05':
         return [seq('C05')]
     if pid == 'C13':
         if q:
-            return [seq('C13'), vrt('C13', [r'gen_.*'], bound=3, workers=4)]
+            return [seq('C13', tier='thorough'), vrt('C13', [r'gen_.*'], unbounded=True, workers=4)]
         return [seq('C13'), vrt('C13', [r'gen_.*'], unbounded=True, workers=4)]
     if pid == 'C14':
         if q:
-            return [seq('C14'), vrt('C13', [r'aggr_.*'], bound=2, workers=4)]
+            return [seq('C14', tier='thorough'), vrt('C13', [r'aggr_.*'], bound=3, workers=8)]
         return [seq('C14'), vrt('C13', [r'aggr_.*'], bound=3, workers=8)]
     if pid == 'C15':
         if q:
-            return [seq('C15'), vrt('C15', [r'sig_.*'], bound=2, workers=4)]
+            return [seq('C15', tier='thorough'), vrt('C15', [r'sig_l1_.*', r'sig_hookup_.*'], unbounded=True, workers=4), vrt('C15', [r'sig_l2_.*'], bound=3, workers=8)]
         return [seq('C15'), vrt('C15', [r'sig_l1_.*', r'sig_hookup_.*'], unbounded=True, workers=4), vrt('C15', [r'sig_l2_.*'], bound=3, workers=8)]
     if pid == 'C18':
         return [seq('C18'), vrt('C18', [r'cb_.*'], unbounded=True, workers=2)]
